@@ -92,6 +92,30 @@ def observe(fn):
         return type(ex).__name__, []
 
 
+def observe_interleaved(mk1, mk2):
+    """Two output streams consumed alternately, one item each in turn."""
+    res = [["none", []], ["none", []]]
+    its = [None, None]
+    for k, mk in enumerate((mk1, mk2)):
+        try:
+            its[k] = iter(mk())
+        except Exception as ex:
+            res[k][0] = type(ex).__name__
+    live = [it is not None for it in its]
+    while any(live):
+        for k in (0, 1):
+            if not live[k]:
+                continue
+            try:
+                res[k][1].append(next(its[k]))
+            except StopIteration:
+                live[k] = False
+            except Exception as ex:
+                res[k][0] = type(ex).__name__
+                live[k] = False
+    return (res[0][0], res[0][1]), (res[1][0], res[1][1])
+
+
 def number(f, kind):
     """A Fraction as the number type `kind` (all pool values are dyadic, so floats are exact)."""
     if kind == "float":
@@ -484,10 +508,28 @@ def m3(ctx, al, count, maxlen):
             size = rng.randint(1, 16)
             zero = rng.choice([Fraction(0), q4(rng)])
             label, f = rng.choice(aliases(al, "maverage", strat))
-            err, got = observe(lambda: f(size)(container(x, kind, al), zero=number(zero, nk)))
+            if j % 2:
+                # one filter object used for two signals whose outputs are consumed interleaved: every output
+                # stream is still the moving average of ITS input (a tool keeps no state between its calls)
+                xf2 = [q4(rng) for _ in range(rng.randint(3, maxlen))]
+                x2 = [number(v, nk) for v in xf2]
+                flt = f(size)
+                (err, got), (err2, got2) = observe_interleaved(
+                    lambda: flt(container(x, kind, al), zero=number(zero, nk)),
+                    lambda: flt(container(x2, kind, al), zero=number(zero, nk)))
+                out2, near2 = snap_all(got2)
+                add(dict(base, x=[rat(v) for v in xf2], strat=strat, size=size, zero=rat(zero), out=out2, near=near2,
+                         err=err2),
+                    dict(info, x=[str(v) for v in xf2][:40],
+                         call="flt = %s(%d); flt(other, ...) interleaved with flt(x, zero=%s)" % (label, size, zero),
+                         err=err2, observed=[repr(g) for g in got2][:40]))
+                callstr = "flt = %s(%d); flt(x, zero=%s) interleaved with flt(other, ...)" % (label, size, zero)
+            else:
+                err, got = observe(lambda: f(size)(container(x, kind, al), zero=number(zero, nk)))
+                callstr = "%s(%d)(x, zero=%s)" % (label, size, zero)
             out, near = snap_all(got)
             add(dict(base, strat=strat, size=size, zero=rat(zero), out=out, near=near, err=err),
-                dict(info, call="%s(%d)(x, zero=%s)" % (label, size, zero), err=err, observed=[repr(g) for g in got][:40]))
+                dict(info, call=callstr, err=err, observed=[repr(g) for g in got][:40]))
         elif tool == "accumulate":
             strat = rng.choice(["accumulate", "func", "z"])
             label, f = rng.choice(aliases(al, "accumulate", strat))
